@@ -54,7 +54,7 @@ VARIABLES fam, cs,                                     \* family and case
 vars == <<fam, cs, work, n, c, W, mode, queue, busy, done, deliv, hist, fs, acc, clobber>>
 
 WP == INSTANCE WorkerPool WITH Modes <- PModes, Ns <- {}
-ED == INSTANCE EditDistance WITH MaxR <- 0, MaxH <- 0, Tokens <- {}, CostSet <- {}, Modes <- {}, CheckDecl <- FALSE,
+ED == INSTANCE EditDistance WITH MaxR <- 0, MaxH <- 0, Tokens <- {}, CostSet <- {}, Modes <- {}, CheckDecl <- FALSE, Given <- <<>>, WithRange <- TRUE,
         ref <- <<>>, hyp <- <<>>, mode <- "none", c <- <<1, 1, 1>>, k <- 0,
         row <- <<>>, crow <- <<>>, mrow <- <<>>, out <- <<>>
 
